@@ -115,7 +115,7 @@ def nest_shapes(p, q, positions=None, outer_dags=None, inner_dags=None,
                 nodes = []
                 for i in range(p):
                     if i == pos:
-                        nodes.append(S('n', i, inner if i == pos else None))
+                        nodes.append(S('n', i, inner))
                     else:
                         nodes.append(J(TOPN[i], i))
                 _set_reqs(nodes, oe)
@@ -140,10 +140,11 @@ def deep3_shapes(topkind='pure'):
         return [job, sched]
 
     opts = [(None, 'none')] + [(True, r) for r in REL]
-    for (a, ra), (x, rx), two in itertools.product(opts, opts, (False, True)):
+    for (a, ra), (x, rx), two in itertools.product(opts, opts,
+                                                   (False, True, 'par')):
         m_nodes = [J('p', 0)]
         if two:
-            m_nodes.append(J('q', 1, req=['p']))
+            m_nodes.append(J('q', 1, req=[] if two == 'par' else ['p']))
         n_nodes = level('m', 1, 'x' if x else None, rx, m_nodes)
         t_nodes = level('n', 1, 'a' if a else None, ra, n_nodes)
         yield {'tree': S('top', 0, t_nodes, k=topkind), 'thash': 'asc'}
@@ -325,6 +326,8 @@ def short(scn):
         s = '%s%s:%s' % (node['name'], flags, node['dur'])
         if node['out'] == 'raise':
             s += 'X'
+        elif node['out'] == 'raise_empty':
+            s += 'X0'
         if node.get('cdelay'):
             s += '/cd%s' % node['cdelay']
         if node.get('sd'):
@@ -334,4 +337,5 @@ def short(scn):
         return s
     t = scn['tree']
     return ('P:' if t['k'] == 'pure' else 'S:') + r(t) + \
-        ('' if scn.get('thash', 'asc') == 'asc' else ' thash=%s' % scn['thash'])
+        ('' if scn.get('thash', 'asc') == 'asc' else ' thash=%s' % scn['thash']) \
+        + ('' if not scn.get('pre') else ' pre=%s' % (scn['pre'],))
